@@ -247,3 +247,47 @@ Definition doreconnect_paths : bool :=
                | None => false end) &&
   some_path "Connection.doReconnect" (occurs "c.connectDelayTimer.StartRandom") &&
   some_path "Connection.doReconnect" (fun tr => negb (occurs "c.connectDelayTimer.Wait" tr)).
+
+(* ---------- third batch ---------- *)
+(* C01: each Serve invokes the handler exactly once on every path; the call kinds reply after it, a notification never replies *)
+Definition serve_paths_handler_once : bool :=
+  all_paths "callRequest.Serve" (fun tr => Nat.eqb (count_of "handler.Handler" tr) 1 && in_order ["r.Arg"; "handler.Handler"; "r.Reply"] tr) &&
+  all_paths "callCompressedRequest.Serve" (fun tr => Nat.eqb (count_of "handler.Handler" tr) 1 && in_order ["r.Arg"; "handler.Handler"; "r.Reply"] tr) &&
+  all_paths "notifyRequest.Serve" (fun tr => Nat.eqb (count_of "handler.Handler" tr) 1 && negb (occurs "r.Reply" tr)).
+
+(* C03: the size of the content is compared before a frame is assembled (the refusing path assembles nothing and encodes only
+   the content); both encoder entries obtain the frame first and hand it to the writer afterwards, and there is a way out of
+   each on which nothing is handed over (the refusal); the asynchronous entry starts its goroutine only on the default arm *)
+Definition encoder_paths_refuse_before_handoff : bool :=
+  all_paths "framedMsgpackEncoder.encodeFrame"
+    (fun tr => implb (occurs "fmt.Errorf" tr) (negb (occurs "append" tr) && Nat.eqb (count_of "encodeToBytes" tr) 1)) &&
+  all_paths "framedMsgpackEncoder.encodeFrame"
+    (fun tr => implb (occurs "append" tr) (Nat.eqb (count_of "encodeToBytes" tr) 2 && last_is "append" tr && negb (occurs "fmt.Errorf" tr))) &&
+  some_path "framedMsgpackEncoder.encodeFrame" (occurs "fmt.Errorf") &&
+  all_paths "framedMsgpackEncoder.encodeAndWriteInternal"
+    (fun tr => match tr with a :: _ => String.eqb a "e.encodeFrame" | [] => false end && Nat.eqb (count_of "e.encodeFrame" tr) 1) &&
+  some_path "framedMsgpackEncoder.encodeAndWriteInternal" (fun tr => negb (occurs "arm Arm Send ""e.writeCh""" tr) && negb (occurs "arm Arm Recv ""e.doneCh""" tr) && negb (occurs "arm Arm Recv ""ctx.Done()""" tr)) &&
+  all_paths "framedMsgpackEncoder.EncodeAndWriteAsync"
+    (fun tr => match tr with a :: _ => String.eqb a "e.encodeFrame" | [] => false end
+               && implb (occurs go_lit tr) (occurs "arm default" tr) && Nat.leb (count_of go_lit tr) 1) &&
+  some_path "framedMsgpackEncoder.EncodeAndWriteAsync" (fun tr => negb (occurs "arm default" tr) && negb (occurs "arm Arm Send ""e.writeCh""" tr) && negb (occurs "arm Arm Recv ""e.doneCh""" tr)) &&
+  all_paths "framedMsgpackEncoder.EncodeAndWrite" (fun tr => Nat.eqb (count_of "e.encodeAndWriteInternal" tr) 1).
+
+(* C20: the reply's payload length is added to the call's record right after the call was found - once, not deferred, before
+   the decoder can be replaced by the one over the decompressed result - and on every way out on which the call was found *)
+Definition response_size_paths : bool :=
+  all_paths "rpcResponseMessage.DecodeMessage" (at_most_once "r.c.instrumenter.IncrementSize") &&
+  all_paths "rpcResponseMessage.DecodeMessage"
+    (fun tr => implb (occurs "r.c.instrumenter.IncrementSize" tr)
+                     (in_order ["cc.RetrieveCall"; "int64"; "r.c.instrumenter.IncrementSize"] tr
+                      && immediately_followed "int64" "r.c.instrumenter.IncrementSize" tr)) &&
+  all_paths "rpcResponseMessage.DecodeMessage"
+    (fun tr => implb (occurs "newUncompressedDecoder" tr)
+                     (in_order ["r.c.instrumenter.IncrementSize"; "newUncompressedDecoder"] tr)) &&
+  all_paths "rpcResponseMessage.DecodeMessage"
+    (fun tr => implb (occurs "cc.RetrieveCall" tr && negb (occurs "newCallNotFoundError" tr)) (occurs "r.c.instrumenter.IncrementSize" tr)) &&
+  all_paths "rpcResponseMessage.DecodeMessage"
+    (fun tr => implb (occurs "r.c.errorUnwrapper.UnwrapError" tr || occurs "compressor.Decompress" tr)
+                     (match after_first "r.c.instrumenter.IncrementSize" tr with
+                      | Some r => negb (occurs "r.c.instrumenter.IncrementSize" r) | None => false end)) &&
+  some_path "rpcResponseMessage.DecodeMessage" (occurs "newUncompressedDecoder").
